@@ -145,6 +145,9 @@ def grid():
     D("dice", [-3, 3], stats.randint(-3, 4), -3, 3)
     D("dice", [0, 1], stats.randint(0, 2), 0, 1)
     D("dice", [-1000000, 1000000], stats.randint(-1000000, 1000001), -1000000, 1000000)
+    # ranges with 2^32 faces and more (the arguments are longs)
+    for a_, b_ in ((0, 2**32 - 1), (0, 2**32), (-2**40, 2**40), (0, 10**10), (-5, 2**33)):
+        D("dice", [a_, b_], stats.randint(a_, b_ + 1), a_, b_)
     # loaded dice / alias tables: exact vectors with fit, tolerance-edge vectors with support only
     rng = np.random.default_rng(12345)
     vecs = [[1.0], [0.5, 0.5], [0.0, 1.0, 0.0], [0.1, 0.2, 0.3, 0.4], [0.97, 0.01, 0.01, 0.01],
